@@ -2,7 +2,7 @@
 (* Families of VTIMEZONE definitions given by parameters; per zone the probes    *)
 (* (every onset -1/0/+1 minute and midpoints) with the admissible answers.       *)
 EXTENDS VTimezone, Json
-CONSTANTS Y0s, OffPairs, Ends, Fixed, Cross
+CONSTANTS Y0s, Y0Old, OffPairs, Ends, Fixed, Cross   \* Y0Old: start years before 1900 (yearly pairs only)
 VARIABLE z        \* sequence of observance parameter records
 
 None == [k |-> "none", set |-> {}, m |-> 0, n |-> 0, w |-> 0, hm |-> 0, y0 |-> 0, endk |-> "", endv |-> 0]
@@ -22,7 +22,7 @@ YearlyZones == {<<Ob("STANDARD", "STD", p[2], p[1], YStart(r[1][1], r[1][2], r[1
                      Yearly(r[1][1], r[1][2], r[1][3], r[1][4], y0, e1, EndV(e1, y0))),
                   Ob("DAYLIGHT", "DST", p[1], p[2], YStart(r[2][1], r[2][2], r[2][3], r[2][4], y0),
                      Yearly(r[2][1], r[2][2], r[2][3], r[2][4], y0, e2, EndV(e2, y0)))>> :
-                  y0 \in Y0s, p \in OffPairs, r \in Rules, e1 \in Ends, e2 \in Ends}
+                  y0 \in Y0s \cup Y0Old, p \in OffPairs, r \in Rules, e1 \in Ends, e2 \in Ends}
 RDateZones == {<<Ob("STANDARD", "S", p[2], p[1], Minutes(y0, 10, 25, 180), RDate({Minutes(y0 + 1, 10, 30, 180), Minutes(y0 + 3, 11, 2, 180)})),
                  Ob("DAYLIGHT", "D", p[1], p[2], Minutes(y0 + 1, 3, 28, 120), RDate({Minutes(y0 + 3, 4, 1, 120)}))>> :
                  y0 \in Y0s, p \in OffPairs}
